@@ -435,6 +435,50 @@ def run_r4(ctx, rule):
         rule.bad("give_up_at_cold/no-linecolumn", "anchor missing: LineColumn construction in give_up_at_cold", kind="anchor-missing")
     rule.note("give_up_at_sites", n_at)
 
+# ---- R6 -------------------------------------------------------------------------------------------
+class Touched(Auto):
+    """True once the cursor may have been advanced on this path (any amount that is not the constant 0)"""
+
+    name = "cursor-touched"
+
+    def initial(self):
+        return False
+
+    def event(self, state, ev, where):
+        if ev[0] == "prim" and ev[1] == "advance":
+            n = ev[2][1] if len(ev[2]) > 1 else TOP
+            if not (n[0] == "i" and n[1] == 0):
+                return True
+        return state
+
+
+def run_r6(ctx, rule):
+    """A token whose error type is not ParseError leaves locating the error to its caller (`uint(..).map_err(|digits|
+    input.give_up(..))`): the caller reports at the cursor.  That points at the token only if the token committed
+    its error with the cursor still on it.  Decided per such token function: no path that returns Res(Err) -- or a
+    Res whose payload the analysis cannot see into -- has advanced the cursor."""
+    facts = ctx.facts
+    from .c04 import shape_of
+    n = 0
+    for f in sorted(token_fns(facts), key=lambda x: x.id):
+        nid = norm(f.id)
+        ret = f.locals[0]
+        if ret.get("adt") != A.PARSED or len(ret.get("targs", [])) < 2 or "ParseError" in ret["targs"][1]:
+            continue
+        auto = Touched()
+        eng = Engine(facts, auto)
+        try:
+            res = eng.summary(scan.root_key(facts, f.id), False, tuple(TOP for _ in range(f.argc)))
+        except (A.Recursion, A.Imprecise, A.F.FactError) as e:
+            rule.bad("%s/engine" % nid, "analysis failed: %r" % e, f.loc(), kind="unmodelled-idiom")
+            continue
+        n += 1
+        shapes = sorted(set((sh, st) for av, st in res for sh in shape_of(av)))
+        bad = [sh for sh, st in shapes if st and sh in ("Res(Err)", "Res(?)", "?")]
+        has_err = any(sh == "Res(Err)" for sh, st in shapes)
+        rule.check(not bad, "%s/error-leaves-cursor" % nid, "%s (error type %s, located by the caller at the cursor) commits an error only with the cursor still on the token%s [outcomes: %s]" % (short(nid), ret["targs"][1].rsplit("::", 1)[-1], "" if not bad else " -- but an outcome that may be an error has advanced", ", ".join("%s%s" % (sh, "+moved" if st else "") for sh, st in shapes)), f.loc())
+    rule.note("caller_located_tokens", n)
+
 
 def run(ctx):
     r1 = ctx.rule("C08-R1", "mark() is read only after set_mark() for the current token on every path from every API root", floor=8)
@@ -445,6 +489,8 @@ def run(ctx):
     run_r3(ctx, r3)
     r4 = ctx.rule("C08-R4", "errors are raised at the cursor or at the mark only; column = position - line_start + 1", floor=10)
     run_r4(ctx, r4)
+    r6 = ctx.rule("C08-R6", "a token that leaves locating its error to the caller commits the error with the cursor still on the token", floor=3)
+    run_r6(ctx, r6)
     from .c02 import run_r2 as c02_r2
     r5 = ctx.rule("C08-R5", "the mark (and the position) keep designating the same stream offset across refills and realignment (shared with C02-R2)", floor=25)
     c02_r2(ctx, r5)
